@@ -376,13 +376,12 @@ func runSchedTest(t *testing.T, sp schedSpec) {
 				// takes the lock (whatever it has read by then may be stale), every other command
 				// runs to completion, then the stopped one goes on
 				a := uni(rt, n, "stale.who")
-				pts := w.parkCandidates(cmds[a].Op)
+				pts, lastAcq := w.parkCandidatesEx(cmds[a].Op)
 				var pre []Inject
-				for i, p := range pts {
-					if p.Syscall == "flock" {
-						pre = pts[:i]
-						break
-					}
+				if lastAcq > 0 {
+					// every point before the command's LAST lock acquisition: also the gap between
+					// two lock sections of one command
+					pre = pts[:lastAcq]
 				}
 				if len(pre) > 0 {
 					for i := range cmds {
@@ -499,7 +498,7 @@ func TestC01(t *testing.T) {
 	})
 }
 
-var mixedKinds = map[string]int{"new_task": 16, "new_epic": 5, "set": 22, "claim": 10, "claim_id": 6, "sequence": 12, "sequence_rm": 3, "plan": 8, "prune_yes": 8, "compact": 10, "init": 1}
+var mixedKinds = map[string]int{"new_task": 16, "new_epic": 5, "set": 22, "claim": 10, "claim_id": 6, "sequence": 12, "sequence_rm": 3, "plan": 8, "prune_yes": 8, "compact": 10, "init": 5}
 
 func TestC02(t *testing.T) {
 	runSchedTest(t, schedSpec{
